@@ -112,6 +112,8 @@ def gen_plan(rng: random.Random, tier: str) -> dict:
     # "relay": the file addon also owns traffic through a long-lived task (takes every ChatFromSimulator and
     # re-sends it), which has to die with the version of the file it belongs to
     cfg["file_addon"] = (rng.choice(["observer", "relay", "relay"]) if file_addon else False)
+    # ... and it may depend on a helper module registered for hot reloading, which gets edited too
+    cfg["file_helper"] = bool(file_addon and rng.random() < 0.5)
     for _ in range(n):
         t = round(t + rng.choice([0.0, 0.001, 0.01, 0.05, 0.1]), 4)
         r = rng.choice(cfg["regions"][0])
@@ -120,6 +122,8 @@ def gen_plan(rng: random.Random, tier: str) -> dict:
             if rng.random() < 0.5:
                 steps.append({"at": t, "op": "edit_addon", "content": rng.choice(["v2", "syntax", "syntax", "raise",
                                                                                    "gone", "v3"])})
+            elif cfg["file_helper"] and rng.random() < 0.6:
+                steps.append({"at": t, "op": "edit_addon", "content": "helper"})
             t = round(t + rng.choice([0.5, 2.05, 2.05, 4.1]), 4)       # let reload windows pass
         if x < 0.12:
             steps.append({"at": t, "op": "subscribe", "level": rng.choice(["session", "region"]), "r": r,
@@ -537,7 +541,19 @@ def run_plan(plan: dict) -> RunResult:
             fpath = os.path.join(scratch, "hsimfileaddon.py")
             vtimes = {}
 
+            hpath = os.path.join(scratch, "hsimfilehelper.py")
+            helper_rev = [0]
+
+            def write_helper():
+                helper_rev[0] += 1
+                with open(hpath, "w") as f:
+                    f.write(f"HELPER = 'h{helper_rev[0]}'\n" + "# " + "x" * helper_rev[0] + "\n")
+                vtimes[hpath] = vtimes.get("_n", 1000.0) + 1.0
+                vtimes["_n"] = vtimes[hpath]
+
             def write_addon(content):
+                if content == "helper":
+                    return write_helper() if cfg.get("file_helper") else None
                 bodies = {
                     "syntax": "def broken(:\n    pass\n",
                     "raise": "raise RuntimeError('scripted: addon file fails while loading')\n",
@@ -550,7 +566,11 @@ def run_plan(plan: dict) -> RunResult:
                 src = bodies.get(content) or (
                     "from hsim.props import c07_file_hook as H\n"
                     "from hippolyzer.lib.proxy.addon_utils import BaseAddon\n"
-                    f"VERSION = {content!r}\n"
+                    + ("" if not cfg.get("file_helper") else
+                       "import hsimfilehelper\n"
+                       "from hippolyzer.lib.proxy.addons import AddonManager\n"
+                       "AddonManager.hot_reload(hsimfilehelper)\n")
+                    + f"VERSION = {content!r}\n"
                     "class FileAddon(BaseAddon):\n"
                     "    def handle_init(self, session_manager):\n        H.record('init', VERSION)\n"
                     "    def handle_unload(self, session_manager):\n        H.record('unload', VERSION)\n"
@@ -603,6 +623,11 @@ def run_plan(plan: dict) -> RunResult:
             c07_file_hook.SINK = file_sink
             c07_file_hook.PRED = file_pred
             c07_file_hook.RELAY = file_relay
+            from hippolyzer.lib.proxy.addons import AddonManager as _AM
+            _AM.HOTRELOAD_IMPORTERS.clear()
+            sys.modules.pop("hsimfilehelper", None)
+            if cfg.get("file_helper"):
+                write_helper()
             write_addon("v1")
             addon_paths = [fpath]
             mtime_of = lambda path_: vtimes.get(str(path_))     # noqa: E731
@@ -614,6 +639,8 @@ def run_plan(plan: dict) -> RunResult:
                 shutil.rmtree(scratch, ignore_errors=True)
                 for name_ in [m_ for m_ in sys.modules if m_.startswith("hippolyzer.user_addon_hsimfileaddon")]:
                     sys.modules.pop(name_, None)
+                sys.modules.pop("hsimfilehelper", None)
+                _AM.HOTRELOAD_IMPORTERS.clear()
                 if scratch in sys.path:
                     sys.path.remove(scratch)
                 rp = os.path.realpath(scratch)
